@@ -17,6 +17,7 @@
 import XzVerif.Model.Coder
 import XzVerif.Model.Vli
 import XzVerif.Model.Delta
+import XzVerif.Model.Crc
 
 namespace XzVerif.Coder
 open XzVerif.Vli
@@ -120,40 +121,60 @@ def Simple.init {φ ν : Type} (f : φ) (n : ν) : Simple φ ν :=
     `now_pos += filtered` bookkeeping. -/
 abbrev Filter (φ : Type) := φ → List UInt8 → List UInt8 × Nat × φ
 
-/-- Everything in `simple_code()` after "Flush already filtered data …": `s.pos = s.filtered` here, `out0` is what this call has
-    written so far. Returns the new state, all output of the call, the input consumed. -/
-def simpleMain {φ ν : Type} (F : Filter φ) (src : Src ν) (allocated : Nat) (s : Simple φ ν) (inp : List UInt8) (cap : Nat)
+/-- The body of `if (out_avail > buf_avail || buf_avail == 0)` once `copy_or_code()` has answered `p` = (next state, bytes it wrote,
+    input it consumed, `LZMA_STREAM_END`?): `unf` (the unfiltered bytes of `coder->buffer[]`) and the new bytes are in `out[]`;
+    filter them in place; keep the unfiltered tail unless the end was reached. -/
+def simpleStageACore {φ ν : Type} (F : Filter φ) (s : Simple φ ν) (unf : List UInt8) (p : ν × List UInt8 × Nat × Bool)
+    (out0 : List UInt8) : Simple φ ν × List UInt8 × Nat :=
+  let region := unf ++ p.2.1
+  -- const size_t filtered = size == 0 ? 0 : call_filter(coder, out + out_start, size);
+  let f := if region = [] then ([], 0, s.filt) else F s.filt region
+  if s.endReached || p.2.2.2 then
+    -- "The last byte has been copied to out[] already. They are left as is."  coder->size = 0
+    ({ filt := f.2.2, next := p.1, endReached := true, pos := 0, filtered := 0, buffer := [] }, out0 ++ f.1, p.2.2.1)
+  else
+    -- the unfiltered tail goes back to coder->buffer[] and *out_pos is rewound
+    ({ filt := f.2.2, next := p.1, endReached := false, pos := 0, filtered := 0, buffer := f.1.drop f.2.1 },
+      out0 ++ f.1.take f.2.1, p.2.2.1)
+
+/-- First part of `simple_code()` after "Flush already filtered data …" (`s.pos = s.filtered` here; `out0` is what this call has
+    written so far): `if (out_avail > buf_avail || buf_avail == 0)` flush `coder->buffer[]` to `out[]`, copy/code more data to
+    `out[]`, filter it in place, keep the unfiltered tail; `else` move the unfiltered bytes to the start of `coder->buffer[]`.
+    Returns the new state, all output of the call so far, the input consumed. -/
+def simpleStageA {φ ν : Type} (F : Filter φ) (src : Src ν) (s : Simple φ ν) (inp : List UInt8) (cap : Nat)
     (finish : Bool) (out0 : List UInt8) : Simple φ ν × List UInt8 × Nat :=
   -- coder->filtered = 0;  out_avail = out_size - *out_pos;  buf_avail = coder->size - coder->pos
   let outAvail := cap - out0.length
   let unf := s.buffer.drop s.pos
   let bufAvail := unf.length
-  -- if (out_avail > buf_avail || buf_avail == 0): flush buffer to out[], copy/code more to out[], filter out[] in place
-  let a : Simple φ ν × List UInt8 × Nat :=
-    if outAvail > bufAvail ∨ bufAvail = 0 then
-      let p := src.pull s.next inp (outAvail - bufAvail) finish
-      let region := unf ++ p.2.1
-      let f := if region = [] then ([], 0, s.filt) else F s.filt region
-      if s.endReached || p.2.2.2 then
-        -- "The last byte has been copied to out[] already. They are left as is."  coder->size = 0
-        ({ filt := f.2.2, next := p.1, endReached := true, pos := 0, filtered := 0, buffer := [] }, out0 ++ f.1, p.2.2.1)
-      else
-        -- unfiltered tail goes back to coder->buffer[] and *out_pos is rewound
-        ({ filt := f.2.2, next := p.1, endReached := false, pos := 0, filtered := 0, buffer := f.1.drop f.2.1 },
-          out0 ++ f.1.take f.2.1, p.2.2.1)
-    else
-      -- else if (coder->pos > 0) memmove(...)
-      ({ s with pos := 0, filtered := 0, buffer := unf }, out0, 0)
-  -- if (coder->size > 0): fill coder->buffer[], filter it, flush what was filtered
+  if outAvail > bufAvail ∨ bufAvail = 0 then
+    simpleStageACore F s unf (src.pull s.next inp (outAvail - bufAvail) finish) out0
+  else
+    -- else if (coder->pos > 0) memmove(...)
+    ({ s with pos := 0, filtered := 0, buffer := unf }, out0, 0)
+
+/-- The body of `if (coder->size > 0)` once `copy_or_code()` has answered `p`: the new bytes are appended to `coder->buffer[]`,
+    the buffer is filtered, as much of the filtered part as fits is flushed. -/
+def simpleStageBCore {φ ν : Type} (F : Filter φ) (a : Simple φ ν × List UInt8 × Nat) (p : ν × List UInt8 × Nat × Bool)
+    (cap : Nat) : Simple φ ν × List UInt8 × Nat :=
+  let f := F a.1.filt (a.1.buffer ++ p.2.1)
+  let endR := a.1.endReached || p.2.2.2
+  -- "Everything is considered to be filtered if coder->buffer[] contains the last bytes of the data."
+  let filtered := if endR then f.1.length else f.2.1
+  let k := min filtered (cap - a.2.1.length)
+  ({ filt := f.2.2, next := p.1, endReached := endR, pos := k, filtered := filtered, buffer := f.1 },
+    a.2.1 ++ f.1.take k, a.2.2 + p.2.2.1)
+
+/-- Second part: `if (coder->size > 0)` fill `coder->buffer[]`, filter it there, flush as much of the filtered part as fits. -/
+def simpleStageB {φ ν : Type} (F : Filter φ) (src : Src ν) (allocated : Nat) (a : Simple φ ν × List UInt8 × Nat)
+    (inp : List UInt8) (cap : Nat) (finish : Bool) : Simple φ ν × List UInt8 × Nat :=
   if a.1.buffer ≠ [] then
-    let p := src.pull a.1.next (inp.drop a.2.2) (allocated - a.1.buffer.length) finish
-    let f := F a.1.filt (a.1.buffer ++ p.2.1)
-    let endR := a.1.endReached || p.2.2.2
-    let filtered := if endR then f.1.length else f.2.1
-    let k := min filtered (cap - a.2.1.length)
-    ({ filt := f.2.2, next := p.1, endReached := endR, pos := k, filtered := filtered, buffer := f.1 },
-      a.2.1 ++ f.1.take k, a.2.2 + p.2.2.1)
+    simpleStageBCore F a (src.pull a.1.next (inp.drop a.2.2) (allocated - a.1.buffer.length) finish) cap
   else a
+
+def simpleMain {φ ν : Type} (F : Filter φ) (src : Src ν) (allocated : Nat) (s : Simple φ ν) (inp : List UInt8) (cap : Nat)
+    (finish : Bool) (out0 : List UInt8) : Simple φ ν × List UInt8 × Nat :=
+  simpleStageB F src allocated (simpleStageA F src s inp cap finish out0) inp cap finish
 
 def simpleRet {φ ν : Type} (s : Simple φ ν) : Ret :=
   if s.endReached && decide (s.pos = s.buffer.length) then .streamEnd else .ok
@@ -248,7 +269,9 @@ def l2Step (s : L2State) (b : UInt8) : L2State × List L2Event :=
     let s := { s with compressedSize := s.compressedSize + b.toNat + 1, seq := s.nextSeq }
     (s, [.chunkSizes (s.nextSeq != .copy) (if s.nextSeq == .copy then s.compressedSize else s.uncompressedSize) s.compressedSize])
   | .properties =>
-    if b.toNat > (4 * 5 + 4) * 9 + 8 then (s, [.finished .dataError])
+    -- lzma_lzma_lclppb_decode: byte > (4 * 5 + 4) * 9 + 8, or lc + lp > LZMA_LCLP_MAX
+    let d := b.toNat % 45
+    if b.toNat > (4 * 5 + 4) * 9 + 8 ∨ d % 9 + d / 9 > 4 then (s, [.finished .dataError])
     else ({ s with seq := .lzma }, [.props b])
   | .lzma =>
     let s := { s with compressedSize := s.compressedSize - 1 }
@@ -271,77 +294,80 @@ def l2Feed : L2State → List UInt8 → L2State × List L2Event × Nat
       let t := l2Feed r.1 rest
       (t.1, r.2 ++ t.2.1, t.2.2 + 1)
 
-/-! ## Index decoder sequence machine (`index_decode()`), bytes in, VLI fields out -/
+/-! ## Index decoder sequence machine (`index_decode()`) -/
 
 inductive IxSeq where
   | indicator | count | memusage | unpadded | uncompressed | paddingInit | padding | crc32
   deriving DecidableEq, Repr, Inhabited
 
-/-- The parts of `lzma_index_coder` that drive the parse. The records are collected as a list instead of an `lzma_index`;
-    the memory-limit check and `lzma_index_append`'s limits are not modelled (they do not depend on slicing: C09/C13).
-    `crcBytes` collects the four stored CRC32 bytes; the CRC itself is computed over `consumedAll` by the caller. -/
+/-- The parts of `lzma_index_coder` that drive the parse. The Records are collected in a list instead of an `lzma_index`; the
+    memory-limit check and `lzma_index_append`'s size limits are not modelled (they do not depend on slicing; C09/C13).
+    `crc` is the CRC32 shift register over every byte consumed before the CRC32 field (the C code updates it once per call over
+    the chunk it consumed in that call — never twice, never skipping one: that bookkeeping is exactly what slicing could break). -/
 structure IxState where
   seq : IxSeq := .indicator
   count : Nat := 0
   unpadded : Nat := 0
-  vli : Nat := 0           -- the VLI being assembled (`coder->count`, `unpadded_size` or `uncompressed_size`)
-  vliPos : Nat := 0
+  vli : Nat := 0
+  vliPos : Nat := 0          -- `coder->pos` while a VLI is being read
   records : List (Nat × Nat) := []     -- reversed
-  total : Nat := 0         -- bytes of the Index field consumed so far, up to the padding (`lzma_index_size` stand-in)
-  padLeft : Nat := 0
-  crcPos : Nat := 0
-  crcBytes : List UInt8 := []
+  total : Nat := 0           -- bytes of Index Indicator + Number of Records + List of Records consumed so far
+  padLeft : Nat := 0         -- `coder->pos` in SEQ_PADDING
+  crcPos : Nat := 0          -- `coder->pos` in SEQ_CRC32
+  crc : BitVec 32 := 0xFFFFFFFF#32
   deriving DecidableEq, Repr, Inhabited
 
-/-- One byte of the Index field. `none` = still going; `some r` = finished with `r` (`LZMA_STREAM_END` after the fourth CRC byte —
-    the comparison with the computed CRC32 is the caller's — or `LZMA_DATA_ERROR`). -/
+/-- One byte of `lzma_vli_decode(&v, &coder->pos, …)`: `some (some v)` finished, `some none` LZMA_DATA_ERROR, `none` needs more. -/
+def ixVliByte (s : IxState) (b : UInt8) : IxState × Option (Option Nat) :=
+  let v := s.vli + (b.toNat % 128) * 2 ^ (s.vliPos * 7)
+  let p := s.vliPos + 1
+  if b.toNat < 128 then
+    if b.toNat = 0 ∧ p > 1 then (s, some none) else ({ s with vli := 0, vliPos := 0 }, some (some v))
+  else if p = 9 then (s, some none)
+  else ({ s with vli := v, vliPos := p }, none)
+
+/-- One byte of the Index field. `none` = still going; `some r` = finished with `r`. -/
 def ixStep (s : IxState) (b : UInt8) : IxState × Option Ret :=
-  let vliByte (s : IxState) : IxState × Option (Option Nat) :=
-    -- one byte of lzma_vli_decode with the persistent pos: `some (some v)` finished, `some none` error, `none` more
-    let v := s.vli + (b.toNat % 128) * 2 ^ (s.vliPos * 7)
-    let p := s.vliPos + 1
-    if b.toNat < 128 then
-      if b.toNat = 0 ∧ p > 1 then (s, some none) else ({ s with vli := 0, vliPos := 0 }, some (some v))
-    else if p = 9 then (s, some none)
-    else ({ s with vli := v, vliPos := p }, none)
+  let crc' := Crc.byteStep Crc.P32 s.crc b
   match s.seq with
-  | .indicator => if b = 0 then ({ s with seq := .count, total := 1 }, none) else (s, some .dataError)
+  | .indicator => if b = 0 then ({ s with seq := .count, total := 1, crc := crc' }, none) else (s, some .dataError)
   | .count =>
-    let s := { s with total := s.total + 1 }
-    match vliByte s with
+    let s := { s with total := s.total + 1, crc := crc' }
+    match ixVliByte s b with
     | (_, some none) => (s, some .dataError)
     | (s, some (some v)) => ({ s with count := v, seq := if v = 0 then .paddingInit else .unpadded }, none)
     | (s, none) => (s, none)
-  | .memusage => (s, some .progError)
+  | .memusage => (s, some .progError)     -- never a resting state
   | .unpadded =>
-    let s := { s with total := s.total + 1 }
-    match vliByte s with
+    let s := { s with total := s.total + 1, crc := crc' }
+    match ixVliByte s b with
     | (_, some none) => (s, some .dataError)
     | (s, some (some v)) =>
       if v < 5 ∨ v > 9223372036854775804 then (s, some .dataError) else ({ s with unpadded := v, seq := .uncompressed }, none)
     | (s, none) => (s, none)
   | .uncompressed =>
-    let s := { s with total := s.total + 1 }
-    match vliByte s with
+    let s := { s with total := s.total + 1, crc := crc' }
+    match ixVliByte s b with
     | (_, some none) => (s, some .dataError)
     | (s, some (some v)) =>
       let s := { s with records := (s.unpadded, v) :: s.records, count := s.count - 1 }
       ({ s with seq := if s.count = 0 then .paddingInit else .unpadded }, none)
     | (s, none) => (s, none)
-  | .paddingInit | .padding =>
-    -- SEQ_PADDING_INIT computes the padding and falls through without consuming; the byte seen here is either a padding
-    -- byte or, with no padding left, the first CRC32 byte
-    let pad := if s.seq = .paddingInit then (4 - s.total % 4) % 4 else s.padLeft
+  | .paddingInit | .padding | .crc32 =>
+    -- SEQ_PADDING_INIT computes the padding and falls through; SEQ_PADDING with nothing left falls through to SEQ_CRC32:
+    -- the byte seen here is a padding byte or a CRC32 byte.
+    let pad := if s.seq = .paddingInit then (4 - s.total % 4) % 4 else if s.seq = .padding then s.padLeft else 0
     if pad > 0 then
-      if b ≠ 0 then (s, some .dataError) else ({ s with seq := .padding, padLeft := pad - 1 }, none)
+      if b ≠ 0 then (s, some .dataError) else ({ s with seq := .padding, padLeft := pad - 1, crc := crc' }, none)
     else
-      let s := { s with seq := .crc32, crcBytes := [b], crcPos := 1 }
-      (s, none)
-  | .crc32 =>
-    let s := { s with crcBytes := s.crcBytes ++ [b], crcPos := s.crcPos + 1 }
-    if s.crcPos = 4 then (s, some .streamEnd) else (s, none)
+      let want := ((~~~ s.crc).toNat / 2 ^ (s.crcPos * 8)) % 256
+      if want ≠ b.toNat then (s, some .dataError)
+      else
+        let s := { s with seq := .crc32, crcPos := s.crcPos + 1 }
+        if s.crcPos = 4 then (s, some .streamEnd) else (s, none)
 
-/-- Feed a piece; stops at the first verdict. Returns state, verdict, bytes consumed. -/
+/-- Feed a piece (what one `index_decode()` call does with `avail_in` bytes); stops at the first verdict.
+    Returns state, verdict, bytes consumed. -/
 def ixFeed : IxState → List UInt8 → IxState × Option Ret × Nat
   | s, [] => (s, none, 0)
   | s, b :: rest =>
